@@ -3,6 +3,7 @@ import AslProofs.Date
 import AslProofs.DateParse
 import AslProofs.DateFmt
 import AslProofs.DateDbl
+import AslProofs.DateArith
 /-!
 # C19 — Date converts between epoch seconds and UTC calendar fields as a bijection
 
@@ -140,7 +141,7 @@ theorem year_of_day (y k : Int) (hy : 0 ≤ y) (hk0 : 0 ≤ k) (hk : k < Cal.yea
   have h2 := tfy_eq_start (y + 1)
   have hs0 : 0 ≤ start y := by
     by_cases e : y = 0
-    · rw [e, start_zero]; exact Int.le_refl _
+    · have h00 := start_zero; rw [e]; omega
     · have := start_strict_mono (y := 0) (z := y) (by omega)
       rw [start_zero] at this; omega
   have hb := year_bracket (timeFromYearAsDays y + k) (timeFromYearAsDays y + k + 719528) rfl (by omega)
@@ -417,5 +418,29 @@ example : t0 ≤ 951868799123 ∧ (951868799123 : Int) ≤ tMax := by decide
 example : roundMsD (8303486592614367, 15) = 253402300799999 := by decide
 example : -(2 ^ 15 : Int) ≤ 2 * (1000 * 8303486592614367 - 253402300799999 * 2 ^ 15) ∧
     2 * (1000 * 8303486592614367 - 253402300799999 * 2 ^ 15) < (2 ^ 15 : Int) := by decide
+
+/-! ## arithmetic and order on stored dates
+
+`Date::operator+(double)` / `operator-(double)` with a whole number of seconds and `operator<` (`<=`, `>` are its
+negation / converse), on the exact model of the stored double (`addSecD`: exact sum, then binary64 rounding `round53`). -/
+
+/-- adding (or subtracting) any whole number of seconds to a stored whole-millisecond instant gives a double that is
+shown as exactly `ms + 1000 s` — fields and all formats — as long as the result is in years 1..9999 -/
+theorem add_seconds_exact (ms s : Int) (h0 : t0 ≤ ms + 1000 * s) (h1 : ms + 1000 * s ≤ tMax) (k : Fmt) :
+    roundMsD (addSecD (toDouble ms) s) = ms + 1000 * s ∧
+    calcF (roundMsD (addSecD (toDouble ms) s)) = calcF (ms + 1000 * s) ∧
+    toUTCString k (roundMsD (addSecD (toDouble ms) s)) = toUTCString k (ms + 1000 * s) := by
+  obtain ⟨a, b, c⟩ := AslProofs.DateDbl.toDouble_close ms
+  have h := AslProofs.DateArith.addSec_close (toDouble ms).1 ms s (toDouble ms).2 c a b (by unfold t0 tMax at *; omega)
+  exact ⟨h, by rw [h], by rw [h]⟩
+
+/-- `operator<` on stored dates is the order of the instants (so `==`-free comparisons never confuse two different
+milliseconds, and never order equal ones) -/
+theorem stored_order_is_instant_order (m1 m2 : Int) : ltD (toDouble m1) (toDouble m2) = decide (m1 < m2) :=
+  AslProofs.DateArith.ltD_toDouble m1 m2
+
+example : t0 ≤ 951868799123 + 1000 * 86400 ∧ (951868799123 : Int) + 1000 * 86400 ≤ tMax := by decide
+example : addSecD (toDouble 951868799123) 86400 = (7985578999004791, 23) ∧ roundMsD (7985578999004791, 23) = 951955199123 := by decide
+example : ltD (toDouble 1001) (toDouble 1002) = true ∧ ltD (toDouble 1002) (toDouble 1002) = false := by decide
 
 end C19
